@@ -126,7 +126,7 @@ func c06Run(c *mon.Ctx) {
 			}
 		}
 	}
-	vals := c.Pick(5, 40)
+	vals := c.Pick(5, 100)
 	c.ForEach(len(cells)*vals, func(w, i int) {
 		ce := cells[i/vals]
 		r := c.Rand(1, uint64(i))
@@ -219,7 +219,7 @@ func c06Run(c *mon.Ctx) {
 		}
 	}
 	// (8) random rules (safe strings: both routes; hostile strings: struct route)
-	n := c.Pick(60_000, 3_000_000)
+	n := c.Pick(60_000, 20_000_000)
 	c.ForEach(n, func(w, i int) {
 		r := c.Rand(2, uint64(i))
 		o := &rulegen.Opts{WatchDir: dir, WatchFile: file, HostileStrings: i%4 == 0}
